@@ -74,6 +74,8 @@ def gen_fragment(rng):
         return ""
     if r < 0.57:
         return "#"
+    if r < 0.64:
+        return "#" + "&".join(gen_known_item(rng) for _ in range(rng.choice([1, 1, 2])))     # a fragment that looks like tracking items
     return "#" + seg(rng, ("/", "?", "&", "=", "!", "#"))
 
 
